@@ -9,7 +9,7 @@ func init() {
 		ID: "C06", Level: "exploration",
 		Rule: "generated histories weighted towards pool trades, order-book trades, custom gas coins (commission pool shared with the route) and mid-block dependencies; the real CheckTx is called on the same instance immediately before every DeliverTx of the same bytes and acceptance is compared (codes 0 and 113 = accept; TooLowGasPrice excluded); second oracle: an undisturbed second instance executes the same blocks without CheckTx probes and must answer identically (CheckTx must be side-effect free); one evaluation = one CheckTx/DeliverTx pair; distinct = (tx type, check code, deliver code, commission route)",
 		Assumptions: []string{"the stub mempool is empty, so the CheckTx gas-price floor is 1"},
-		Quick: 42, Thorough: 1500, MinEval: 8000, MinDistinct: 80,
+		Quick: 42, Thorough: 420, MinEval: 8000, MinDistinct: 80,
 		Run: func(ctx *WorkCtx, idx int) {
 			r := Rng(ctx.Seed, "C06", idx)
 			sc := StdScenario(idx, r, 100)
